@@ -403,4 +403,51 @@ pub fn stack_led_macros(g: &mut Gen, thorough: bool) {
             g.push(f.join("\t"), "oracle-macros-that-start-with-a-stack-operator", true);
         }
     }
+    // pipelines nested through macros, level upon level (well within what the library allows: its own limit is
+    // there for definitions that call themselves): the steps in the order written, whatever the depth
+    for depth in 1..=8usize {
+        for dir in ["F", "I"] {
+            let mut resources = vec![];
+            for l in 0..depth {
+                let inner = if l + 1 == depth { "helmert x=0.25 | addone".to_string() } else { format!("n:l{}", l + 1) };
+                resources.push((format!("n:l{l}"), format!("helmert y={} | {inner} | addone inv", l + 1)));
+            }
+            // flattened: helmert y=1 .. helmert y=depth, helmert x=0.25, addone, then depth times addone inv
+            let mut flat: Vec<(String, String)> = (0..depth).map(|l| (String::new(), format!("helmert y={}", l + 1))).collect();
+            flat.push((String::new(), "helmert x=0.25".to_string()));
+            flat.push((String::new(), "addone".to_string()));
+            for _ in 0..depth {
+                flat.push(("I".to_string(), "addone".to_string()));
+            }
+            let mut f = vec!["default".to_string(), resources.len().to_string()];
+            for (n, b) in &resources {
+                f.push(crate::wire::escape(n));
+                f.push(crate::wire::escape(b));
+            }
+            f.push("0".to_string());
+            let data = super::probe_data(2);
+            let mut o = vec!["OP".to_string()];
+            o.extend(f.clone());
+            o.push(crate::wire::escape("noop | n:l0 | noop"));
+            o.push("both".to_string());
+            o.push(dir.to_string());
+            o.push(data.clone());
+            g.push(o.join("\t"), "macros-nested-deep", true);
+            let mut o = vec!["S_C03".to_string()];
+            o.extend(f);
+            o.push(crate::wire::escape("noop | n:l0 | noop"));
+            o.push((flat.len() + 2).to_string());
+            o.push(String::new());
+            o.push("noop".to_string());
+            for (fl, core) in &flat {
+                o.push(fl.clone());
+                o.push(crate::wire::escape(core));
+            }
+            o.push(String::new());
+            o.push("noop".to_string());
+            o.push(dir.to_string());
+            o.push(data);
+            g.push(o.join("\t"), "oracle-macros-nested-deep", true);
+        }
+    }
 }
